@@ -68,6 +68,8 @@ class WalkerSemantics(object):
         if self.TS.is_a(cls, base):
             return True
         # scenario node classes
+        if base in getattr(self, 'extra_isa', {}).get(cls, ()):
+            return True
         return cls.startswith('Node') and base == 'Node'
 
     def evaluator(self):
@@ -117,6 +119,8 @@ class WalkerSemantics(object):
             class_bases=bases, max_steps=2000000)
         ev.inline_module_functions = True
         ev.sym_is_class = lambda s: s.name in TS.bases
+        # `for child in node` / iter(node): the children of a stand-in node
+        ev.iter_hook = lambda x: list(py_iter(x))
 
         def py_type(o):
             if not isinstance(o, Obj):
@@ -170,6 +174,7 @@ class WalkerSemantics(object):
             self._disp_cache[id(handlers)] = cache
         ev, disp, env, table, _ = cache
         ev.steps = 0
+        ev.max_steps = max(2000000, 40 * len(run) ** 3)
         self._emit = emit
         chunks = []
         for key, nodecls in run:
@@ -198,7 +203,8 @@ class WalkerSemantics(object):
 
     # -- the whole walk on an abstract tree --------------------------------
 
-    def run_walk(self, definitions, layout_handlers, root, token_log=None):
+    def run_walk(self, definitions, layout_handlers, root, token_log=None,
+                 stack_log=None):
         """definitions: class name -> tuple of rules (Token Objs built by
         `token()` and mark Syms); layout_handlers: key -> python callable
         (dispatcher, node, before, after, prev) -> list of texts, or for
@@ -217,6 +223,8 @@ class WalkerSemantics(object):
         def token_handler(token, dispatcher, node, value, stack):
             if token_log is not None:
                 token_log.append((token, node, value))
+            if stack_log is not None:
+                stack_log.append((value, list(stack)))
             return [Obj('Chunk', text=value)]
         self.ev = ev
         disp = self.dispatcher(ev, definitions, ('pyfunc', token_handler),
